@@ -113,6 +113,20 @@ impl<'a> Gen<'a> {
 
     /// Any typeable text: a (possibly wrapped) word, an emoticon, an emoji name, or junk.
     pub fn text(&mut self) -> String {
+        let t = self.text_plain();
+        // the escape character of the phonetic scheme somewhere inside, now and then
+        if self.rng.pct(6) && !t.is_empty() {
+            let cs: Vec<char> = t.chars().collect();
+            let at = self.rng.usize(cs.len() + 1);
+            let mut out: String = cs[..at].iter().collect();
+            out.push('`');
+            out.extend(cs[at..].iter());
+            return out;
+        }
+        t
+    }
+
+    fn text_plain(&mut self) -> String {
         match self.rng.weighted(&[55, 20, 8, 8, 9]) {
             0 => self.word(),
             1 => {
@@ -309,6 +323,24 @@ impl<'a> Gen<'a> {
                     g.raw_sel()
                 }
             };
+            if self.rng.pct(2) {
+                // the environment: the user's auto-correct list is rewritten by its editor (a
+                // valid document; stamped now, with the same time, or with an older time as
+                // after a restored backup), or the clock moves
+                let w = self.word();
+                let core: String = w.chars().filter(|c| c.is_ascii_alphabetic()).take(8).collect();
+                let v = self.autocorrect_value();
+                let mt = match self.rng.weighted(&[60, 15, 25]) {
+                    0 => Mt::Now,
+                    1 => Mt::Tie,
+                    _ => Mt::Back(self.rng.range(1, 100_000) * 1_000_000_000),
+                };
+                ops.push(Op::Clock { dt: self.rng.range(1, 50) * 1_000_000_000 });
+                if !core.is_empty() {
+                    ops.push(Op::SetFile { file: FileId::Autocorrect, st: FileSt::Text(serde_json::json!({ core: v }).to_string()), mt });
+                }
+                continue;
+            }
             match self.rng.weighted(&[58, 8, 2, 8, 3, 3, 2, 12, 4]) {
                 0 => {
                     // single key
@@ -744,8 +776,10 @@ impl<'a> Gen<'a> {
                 None => {
                     let t: String = g.text().chars().take(n.max(1)).collect();
                     g.type_text(ops, 0, &t, Sel::Presel);
-                    if g.rng.pct(25) {
-                        ops.push(Op::Bs { h: 0, ctrl: false });
+                    if g.rng.pct(30) {
+                        for _ in 0..g.rng.range(1, 3) {
+                            ops.push(Op::Bs { h: 0, ctrl: false });
+                        }
                     }
                 }
                 Some(l) => {
@@ -1096,6 +1130,15 @@ impl<'a> Gen<'a> {
                         ops.push(Op::Update { h, cfg });
                     }
                 }
+                4 if self.rng.pct(20) => {
+                    // re-loading the configuration while a word is being composed, then a
+                    // commit of what was shown before (C10 names re-loading without an idle
+                    // premise; only "keeps working" is judged for it)
+                    let t = if self.rng.coin() { focus.clone() } else { self.rng.pick(&words).clone() };
+                    self.type_text(&mut ops, h, &t, Sel::Presel);
+                    ops.push(Op::Update { h, cfg });
+                    ops.push(if self.rng.coin() { Op::Commit { h, idx: Idx::Other(self.rng.next_u64() as u8) } } else { Op::Finish { h } });
+                }
                 4 => {
                     // retype something (base + suffix half the time) and leave it
                     let t = if self.rng.coin() { focus.clone() } else { self.rng.pick(&words).clone() };
@@ -1113,7 +1156,16 @@ impl<'a> Gen<'a> {
                     let value = self.autocorrect_value();
                     let doc = serde_json::json!({ core: value }).to_string();
                     ops.push(Op::Clock { dt: 1_000_000_000 });
-                    ops.push(Op::SetFile { file: FileId::Autocorrect, st: FileSt::Text(doc), mt: Mt::Now });
+                    let mt = match self.rng.weighted(&[80, 8, 12]) {
+                        0 => Mt::Now,
+                        1 => Mt::Tie,
+                        _ => Mt::Back(self.rng.range(1, 100_000) * 1_000_000_000),
+                    };
+                    ops.push(Op::SetFile { file: FileId::Autocorrect, st: FileSt::Text(doc), mt });
+                    if self.rng.pct(40) {
+                        ops.push(Op::Finish { h });
+                        ops.push(Op::Update { h, cfg });
+                    }
                 }
             }
             if self.rng.pct(25) {
@@ -1260,6 +1312,18 @@ impl<'a> Gen<'a> {
                 type_word(self, &mut ops, self.env.layout(m.layout), &w);
                 ops.push(Op::Finish { h: 0 });
             }
+            if self.rng.pct(55) {
+                // the auto-correct list is edited while the intermediate configuration is
+                // active (e.g. while a fixed layout is in use)
+                let w = self.rng.pick(&words).clone();
+                let core: String = w.chars().filter(|c| c.is_ascii_alphabetic()).collect();
+                if !core.is_empty() {
+                    let v = self.autocorrect_value();
+                    ac.insert(core, serde_json::Value::String(v));
+                    ops.push(Op::Clock { dt: self.rng.range(1, 5) * 1_000_000_000 });
+                    ops.push(Op::SetFile { file: FileId::Autocorrect, st: FileSt::Text(serde_json::Value::Object(ac.clone()).to_string()), mt: Mt::Now });
+                }
+            }
         }
         ops.push(Op::Update { h: 0, cfg: b });
         ops.push(Op::Fork { h: 0 });
@@ -1338,8 +1402,14 @@ impl<'a> Gen<'a> {
                 let mut vals: Vec<String> = Vec::new();
                 match self.rng.weighted(&[70, 12, 10, 8]) {
                     0 => {
-                        vals.push(self.rng.pick(&cons).to_string());
-                        let joins = self.rng.weighted(&[55, 30, 15]);
+                        if self.rng.pct(6) && l.by_value.contains_key("\u{0995}\u{09CD}\u{09B7}") {
+                            vals.push("\u{0995}\u{09CD}\u{09B7}".into());
+                        } else {
+                            vals.push(self.rng.pick(&cons).to_string());
+                        }
+                        // conjuncts of up to five or six consonants: rare in writing, but where
+                        // scan bounds live
+                        let joins = self.rng.weighted(&[45, 27, 14, 8, 4, 2]);
                         for _ in 0..joins {
                             if self.rng.pct(25) && l.by_value.contains_key("\u{09CD}\u{09B0}") {
                                 vals.push("\u{09CD}\u{09B0}".into());
